@@ -4,14 +4,17 @@ Each module defines  register(reg) -> {property_id: {unit_name: unit}}.
 """
 import importlib
 
-MODULES = ['util', 'inputfile', 'contextdb', 'tokenizer', 'collector', 'walker', 'visitor', 'parsingstate', 'encoder', 'enctables', 'parsers']
+MODULES = ['util', 'inputfile', 'contextdb', 'tokenizer', 'collector', 'walker', 'visitor', 'parsingstate', 'encoder', 'enctables', 'parsers', 'latex2text']
 REPLAYERS = {}
 EXTRA_ASSUMPTIONS = {}
 
 
 def make_replay(pid, o, model):
-    from contracts import native_parse
-    fn = {'C05': native_parse.replay_c05, 'C06': native_parse.replay_c06}.get(pid) or REPLAYERS.get(o.get('unit'))
+    from contracts import native_parse, native_l2t
+    fn = {'C05': native_parse.replay_c05, 'C06': native_parse.replay_c06}.get(pid)
+    if fn is None and pid in ('C03', 'C07', 'C12'):
+        fn = native_l2t.replay_for(pid)
+    fn = fn or REPLAYERS.get(o.get('unit'))
     if fn is None:
         return None
     return fn(o, model)
